@@ -1083,8 +1083,14 @@ static void run_script(void)
 				for (int i = 0; i <= MAXO; i++) {
 					memset(O[k][i].occ, 0, sizeof O[k][i].occ);
 					if (O[k][i].reg) {
+						/* still registered when the loop was torn down: the
+						 * program starts over with a fresh object (also in
+						 * keep mode -- the library's state for it is gone) */
+						int ko = keepobjs;
+						keepobjs = 0;
 						O[k][i].reg = 0;
 						quarantine(k, i);
+						keepobjs = ko;
 					}
 				}
 			forced_quit = 0;
